@@ -37,7 +37,8 @@ CLAIMED = {
        "(permutation_complete), sender generations increase by one (sender_fresh*), and under a collision-free KDF distinct (leaf, type, generation) give distinct "
        "(key, nonce) so application and handshake never share keys (key_injective, proved non-vacuous for a term algebra). Tie: request scripts of the real secret tree vs the "
        "compiled model; direct oracle on real groups: the RecordingProvider log of every aead_seal has no repeated (key, nonce), every ciphertext is accepted exactly once "
-       "under permuted/duplicated delivery with reloads, and the 1024 boundary is exact.",
+       "under permuted/duplicated delivery with reloads, and the 1024 boundary is exact. The model follows the repaired message_key_generation (fix F36): "
+       "refused_future_generation_changes_nothing, rejected_request_changes_no_lookup, repair_same_success / repair_verdict (the early refusal changes the state only, never an accepted answer).",
   note="Trusted: Lean kernel, model validated by correspondence, harness oracles. Excluded and stated: u32 generation overflow within 2048 of 2^32 (counterexample "
        "permutation_near_overflow in the Props file), state roll-back to an older snapshot, real AEAD/KDF collision resistance (FreePrim hypothesis).",
   ref="DESIGN.md §4 C05"),
@@ -83,7 +84,8 @@ CLAIMED = {
        "per-operation theorems are `by decide` over those generated lists, so moving an assignment to self in front of a `?` breaks a proof obligation. "
        "For CiphertextProcessor::open (and the composite encrypted-commit path) the full statement is false on the current tree: machine-checked negation + counterexample "
        "(known findings F8, F8b). Failing-input search / second tie: ~12k mutated, replayed, spliced, insider-re-signed messages and every identity/storage/PSK provider "
-       "fault per operation on real receivers with every state component compared before/after, the genuine follow-up and peer acceptance.",
+       "fault per operation on real receivers with every state component compared before/after, the genuine follow-up and peer acceptance; the C05 delivery streams (messages more than 1024 "
+       "generations ahead) run with the same state comparison around every refusal (defect F36, fixed).",
   note="Trusted: Lean kernel; tools/translate.py (statement-level extraction; table MUTATING_CALLS of callees that mutate behind a call); the harness. Recorded known findings "
        "(known_findings.json): F8 corrupted ciphertext consumes the ratchet key, F8b encrypted commit rejected after decryption consumes the handshake key. Crypto-provider faults not injected.",
   ref="DESIGN.md §4 C04/C15"),
@@ -203,7 +205,9 @@ CLAIMED = {
        "listed in the capabilities, expired lifetime; also tried by value), by-value extras) is a `filter send` and a `filter receive` row (tree, ordered bundle -> applied set, path flag | error) replayed on the compiled model; "
        "direct oracle: every receiver accepts and reports the committer's applied / unused proposals. MlsVerif.Props.C10Lifetime: the key-package lifetime window is exact and inclusive, "
        "no clock = no verdict, a later receiver accepts until not_after; tie: directed scenario (key package with a chosen window, commit_time before / inside / after it, by value and by "
-       "reference, receivers with clocks before / inside / after / none) as `life` rows on the model + oracle.",
+       "reference, receivers with clocks before / inside / after / none) as `life` rows on the model + oracle. Further directed scenarios (oracle only): a by-reference resumption PSK of an epoch "
+       "the committer no longer retains (defect F35, fixed: dropped, reported unused), credential types (clients supporting [basic] / [basic, custom]; by value refused, by reference dropped, "
+       "two mutually exclusive Adds: exactly one committed, all receivers agree), refused Updates (identities refused for one round).",
   note="Trusted: Lean kernel; hand-written filter model validated by the rows; payload validity (signature, lifetime, capabilities, identity verdict, PSK presence) is an attribute of the abstract "
        "proposal. Group-context-extension and re-init mixes are proved on the model but not generated. Fixed defects found here: F1, F16 (revert-all lost leaves).",
   ref="DESIGN.md §4 C10"),
